@@ -58,7 +58,8 @@ Lin(g) ==
        [] o.f = "get" -> LET r == LookupResp(content, o.p) IN
                          /\ content' = content
                          /\ pend' = FnPut(pend, g, [o EXCEPT !.lin = TRUE, !.res = r.res, !.val = r.val])
-       [] o.f = "iter" -> /\ content' = content
+       [] o.f \in {"iter", "changes", "save"} ->    \* snapshot reads: iteration, change-set read, change-set save
+                          /\ content' = content
                           /\ pend' = FnPut(pend, g, [o EXCEPT !.lin = TRUE, !.res = "ok", !.items = Pairs(content)])
        [] OTHER -> /\ content' = content
                    /\ pend' = FnPut(pend, g, [o EXCEPT !.lin = TRUE, !.res = "ok"])
@@ -74,6 +75,11 @@ Ret ==
           \/ /\ Cur.res = o.res
              /\ (o.f = "get" => Cur.val = o.val)
              /\ (o.f = "iter" => ToSet(Cur.items) = o.items /\ Len(Cur.items) = Cardinality(o.items))
+             \* a change set (read by GetChanges, written by SaveChanges), laid over the nodes that existed before
+             \* the run, is one complete trie without foreign nodes, and that trie holds the content of the
+             \* linearization point
+             /\ ((o.f \in {"changes", "save"} /\ Cur.snap) =>
+                    Cur.snapok /\ ToSet(Cur.items) = o.items /\ Len(Cur.items) = Cardinality(o.items))
   /\ pend' = FnDel(pend, Cur.g)
   /\ l' = l + 1 /\ UNCHANGED <<content, judged>>
 
